@@ -372,7 +372,8 @@ def run_raw(case, ctx):
            zip(df["id"], df["type"], df["x"], df["y"], df["z"], df["r"], df["pid"])]
     ctx.check(got == rows, "raw/one-node-per-data-row-in-file-order-with-the-row's-values",
               lambda: f"{got} vs {rows} for {text!r}")
-    ctx.check([c.rstrip("\r") for c in got_comments] == [c for c in comments if not c.startswith(" id type x y z r pid")],
+    # trailing blanks (and the '\r' a text source keeps in front of '\n') are not part of what is compared
+    ctx.check([c.rstrip("\r\n \t") for c in got_comments] == [c.rstrip(" \t") for c in comments if not c.startswith(" id type x y z r pid")],
               "raw/comments-in-order", lambda: f"{got_comments!r} vs {comments!r}")
 
 
